@@ -81,7 +81,13 @@ theorem toBytes_ndl (P : Prims) (E : Env) (n : Bool) (b : BytesK) (c : Nat) (v :
 
 theorem pyStrip_empty : pyStrip "" = "" := by decide
 theorem bracketed_empty : bracketed "" = false := by decide
-attribute [local irreducible] bracketed pyStrip splitFirstSep pyLower
+attribute [local irreducible] bracketed pyStrip splitFirstSep pyLower removeAll strContains endsWith startsWith rstripChar stripL
+
+set_option hygiene false in
+/-- split the first `if`/`match` of hypothesis `h` and replay the decision in the goal -/
+macro "splith" h:ident : tactic =>
+  `(tactic| (split at $h:ident <;> (try (rename_i hc; simp only [hc, if_true, if_false, Bool.false_eq_true] at ⊢))))
+
 
 theorem arrayTail_ndl (n : Bool) (b : SeqK) (c : Nat) (d : V) :
     Sub (arrayTail ⟨n, true⟩ b c d) (arrayTail ⟨n, false⟩ b c d) := by
@@ -358,5 +364,433 @@ theorem toDict_ndl (P : Prims) (L : PrimLaws P) (E : Env) (n : Bool) (c : Nat) (
           · simp [h1']; exact hl
       · dsimp only at h ⊢
         simp at h
+
+theorem attemptFromNumber_ndl (P : Prims) (L : PrimLaws P) (E : Env) (v d : V)
+    (h : attemptFromNumber P E ⟨false, true⟩ v = .ok d) :
+    attemptFromNumber P E ⟨false, false⟩ v = .ok d ∨
+    (d = .int 0 0 ∧ ∃ re, fZero re = true ∧ attemptFromNumber P E ⟨false, false⟩ v = .ok (.float 0 re)) ∨
+    (∃ re im, d = .complex re im ∧ fZero im = true ∧ attemptFromNumber P E ⟨false, false⟩ v = .ok (.float 0 re)) := by
+  unfold attemptFromNumber at h ⊢
+  obtain ⟨d1, h1, h'⟩ := Outcome.bind_eq_ok.mp h
+  obtain ⟨d2, h2, h''⟩ := Outcome.bind_eq_ok.mp h'
+  have l1 := attemptFrom_ndl E v d1 h1
+  have l2 := fromByteLike_ndl P L false d1 d2 h2
+  simp only [l1, l2, Outcome.ok_bind]
+  cases d2 <;> try (left; exact h'')
+  case complex re im =>
+    dsimp only at h'' ⊢
+    simp only [Bool.not_true, Bool.false_eq_true, if_false, Bool.not_false, if_true] at h'' ⊢
+    by_cases hz : fZero im = true
+    · simp only [hz, if_true]
+      by_cases ht : truthy (V.complex re im) = true
+      · simp [ht] at h''
+        right; right
+        exact ⟨re, im, h''.symm, hz, rfl⟩
+      · simp [ht] at h''
+        right; left
+        refine ⟨h''.symm, re, ?_, rfl⟩
+        simp [truthy, hz] at ht
+        exact ht
+    · have ht : truthy (V.complex re im) = true := by simp [truthy, hz]
+      simp [ht] at h''
+      left
+      simp [hz, h'']
+
+/-- "an equal value of the same type": identical, or numbers of the same class that compare equal
+(`Decimal('0.0')` and `Decimal('0')`) -/
+def sameValue (a b : V) : Prop :=
+  a = b ∨ (a.typeOf = b.typeOf ∧ ∃ x y, num? a = some x ∧ num? b = some y ∧ NumV.eq x y = true)
+
+theorem sameValue.rfl' (a : V) : sameValue a a := Or.inl rfl
+
+theorem fZero_normZ (f : FloatV) (h : fZero f = true) : normZ f = .fin 0 0 := by
+  cases f <;> simp [fZero] at h
+  simp [normZ, h]
+
+theorem toFloat_ndl (P : Prims) (L : PrimLaws P) (E : Env) (n : Bool) (c : Nat) (v : V) :
+    Sub (toFloat P E ⟨n, true⟩ c v) (toFloat P E ⟨n, false⟩ c v) := by
+  intro r h
+  cases n
+  · unfold toFloat at h ⊢
+    split at h
+    · exact h
+    · dsimp only at h ⊢
+      simp only [Bool.false_eq_true, if_false] at h ⊢
+      obtain ⟨d, hd, hr⟩ := Outcome.bind_eq_ok.mp h
+      rcases attemptFromNumber_ndl P L E v d hd with h1 | ⟨rfl, re, hz, h1⟩ | ⟨re, im, rfl, hz, h1⟩
+      · simp only [h1, Outcome.ok_bind]; exact hr
+      · simp only [h1, Outcome.ok_bind]
+        simp [floatOf, floatOfInt] at hr ⊢
+        simp [fZero_normZ re hz, hr]
+      · simp [floatOf] at hr
+  · unfold toFloat at h ⊢
+    split at h
+    · exact h
+    · exact h
+
+theorem decOfFloatExact_zero (re : FloatV) (hz : fZero re = true) :
+    ∃ e, decOfFloatExact re = .fin false 0 e := by
+  cases re <;> simp [fZero] at hz
+  rename_i m e
+  subst hz
+  by_cases he : e ≥ 0 <;> simp [decOfFloatExact, he]
+
+theorem intFinish_ndl (P : Prims) (n : Bool) (c : Nat) (d : V) :
+    Sub (intFinish P ⟨n, true⟩ c d) (intFinish P ⟨n, false⟩ c d) := by
+  intro r h
+  unfold intFinish at h ⊢
+  split at h
+  · simp at h
+  · dsimp only at h ⊢
+    split at h
+    · simp at h
+    · simpa using h
+  all_goals simp at h
+
+theorem intAfter_ndl (P : Prims) (n : Bool) (c : Nat) (d : V) :
+    Sub (intAfter P ⟨n, true⟩ c d) (intAfter P ⟨n, false⟩ c d) := by
+  intro r h
+  unfold intAfter at h ⊢
+  split at h
+  · split at h
+    · rename_i h1; simp only [h1, if_true]; exact h
+    · rename_i h1; simp only [h1]
+      split at h
+      · rename_i h2; simp only [h2, if_true]; exact h
+      · rename_i h2; simp only [h2]; exact intFinish_ndl P n c _ r h
+  · split at h
+    · rename_i h1; simp only [h1, if_true]; exact h
+    · rename_i h1; simp only [h1]; exact intFinish_ndl P n c _ r h
+
+theorem toInteger_ndl (P : Prims) (L : PrimLaws P) (E : Env) (n : Bool) (c : Nat) (v : V) :
+    Sub (toInteger P E ⟨n, true⟩ c v) (toInteger P E ⟨n, false⟩ c v) := by
+  intro r h
+  cases n
+  · unfold toInteger at h ⊢
+    split at h
+    · exact h
+    · exact h
+    · dsimp only at h ⊢
+      simp only [Bool.false_eq_true, if_false] at h ⊢
+      obtain ⟨d, hd, hr⟩ := Outcome.bind_eq_ok.mp h
+      rcases attemptFromNumber_ndl P L E v d hd with h1 | ⟨rfl, re, hz, h1⟩ | ⟨re, im, rfl, hz, h1⟩
+      · simp only [h1, Outcome.ok_bind]
+        exact intAfter_ndl P false c d r hr
+      · simp only [h1, Outcome.ok_bind]
+        obtain ⟨e, he⟩ := decOfFloatExact_zero re hz
+        have hl : isInstT (V.float 0 re) (Target.cls Base.int c) = false := by
+          cases c <;> simp [isInstT, isInst, V.cls?, Base.sub]
+        simp only [intAfter, hl, Bool.false_eq_true, if_false, intFinish, decimalOf, he]
+        cases c with
+        | zero =>
+          simp [intAfter, isInstT, isInst, V.cls?, Base.sub] at hr
+          by_cases h0 : e ≥ 0 <;> simp [intOfDec, h0, ← hr]
+        | succ k =>
+          simp [intAfter, isInstT, V.cls?, intFinish, decimalOf, intOfDec, decFinExp0] at hr
+          by_cases h0 : e ≥ 0 <;> simp [intOfDec, h0, ← hr]
+      · cases c <;> simp [intAfter, intFinish, isInstT, isInst, V.cls?, Base.sub, decimalOf] at hr
+  · unfold toInteger at h ⊢
+    split at h
+    · exact h
+    · exact h
+    · dsimp only at h ⊢
+      simp only [if_true] at h ⊢
+      split at h
+      · rename_i h1; simp only [h1, if_true]; exact intFinish_ndl P true c _ r h
+      · simp at h
+
+theorem toDecimal_ndl_nec (P : Prims) (L : PrimLaws P) (E : Env) (c : Nat) (v : V) :
+    Sub (toDecimal P E ⟨true, true⟩ c v) (toDecimal P E ⟨true, false⟩ c v) := by
+  intro r h
+  unfold toDecimal at h ⊢
+  split at h
+  · exact h
+  · dsimp only at h ⊢
+    simp only [if_true] at h ⊢
+    obtain ⟨d, hd, hr⟩ := Outcome.bind_eq_ok.mp h
+    obtain ⟨d1, hd1, hd2⟩ := Outcome.bind_eq_ok.mp hd
+    simp only [fromByteLike_ndl P L true v d1 hd1, Outcome.ok_bind]
+    split at hd2
+    · rename_i h1
+      simp only [h1, if_true]
+      simp at hd2
+      subst hd2
+      exact hr
+    · simp at hd2
+
+theorem toDecimal_ndl_len (P : Prims) (L : PrimLaws P) (E : Env) (c : Nat) (v r : V)
+    (h : toDecimal P E ⟨false, true⟩ c v = .ok r) :
+    ∃ r', toDecimal P E ⟨false, false⟩ c v = .ok r' ∧ sameValue r' r := by
+  unfold toDecimal at h ⊢
+  split at h
+  · exact ⟨_, h, sameValue.rfl' _⟩
+  · dsimp only at h ⊢
+    simp only [Bool.false_eq_true, if_false] at h ⊢
+    obtain ⟨d, hd, hr⟩ := Outcome.bind_eq_ok.mp h
+    rcases attemptFromNumber_ndl P L E v d hd with h1 | ⟨rfl, re, hz, h1⟩ | ⟨re, im, rfl, hz, h1⟩
+    · simp only [h1, Outcome.ok_bind]
+      exact ⟨_, hr, sameValue.rfl' _⟩
+    · simp only [h1, Outcome.ok_bind]
+      simp [decViaStr] at hr
+      subst hr
+      refine ⟨_, by simp [decViaStr, hz]; rfl, Or.inr ⟨by simp [V.typeOf, V.cls?], _, _, rfl, rfl, ?_⟩⟩
+      simp [NumV.eq, Q.eq, Q.scaled]
+    · simp [decViaStr] at hr
+
+theorem toComplex_ndl (P : Prims) (L : PrimLaws P) (E : Env) (n : Bool) (c : Nat) (v : V) :
+    Sub (toComplex P E ⟨n, true⟩ c v) (toComplex P E ⟨n, false⟩ c v) := by
+  intro r h
+  unfold toComplex at h ⊢
+  split at h
+  · rename_i h1; simp only [h1, if_true]; exact h
+  · rename_i h1; simp only [h1]
+    cases n
+    · dsimp only at h ⊢
+      simp only [Bool.false_eq_true, if_false] at h ⊢
+      split at h
+      · exact h
+      · obtain ⟨d, hd, hr⟩ := Outcome.bind_eq_ok.mp h
+        rcases attemptFromNumber_ndl P L E v d hd with h1' | ⟨rfl, re, hz, h1'⟩ | ⟨re, im, rfl, hz, h1'⟩
+        · simp only [h1', Outcome.ok_bind]; exact hr
+        · simp only [h1', Outcome.ok_bind]
+          simp [complexOf] at hr ⊢
+          simp [fZero_normZ re hz, hr]
+        · simp only [h1', Outcome.ok_bind]
+          simp [complexOf] at hr ⊢
+          simp [fZero_normZ im hz] at hr
+          exact hr
+    · dsimp only at h ⊢
+      simp only [if_true] at h ⊢
+      obtain ⟨d, hd, hr⟩ := Outcome.bind_eq_ok.mp h
+      simp only [fromByteLike_ndl P L true v d hd, Outcome.ok_bind]
+      exact hr
+
+theorem toBool_ndl (P : Prims) (n : Bool) (v : V) :
+    Sub (Conv.toBool P ⟨n, true⟩ v) (Conv.toBool P ⟨n, false⟩ v) := by
+  intro r h
+  unfold Conv.toBool at h ⊢
+  split at h
+  · exact h
+  · obtain ⟨b1, hb1, h2⟩ := Outcome.bind_eq_ok.mp h
+    clear h
+    simp only [hb1, Outcome.ok_bind]
+    splith h2
+    · exact h2
+    · obtain ⟨b0, hb0, h3⟩ := Outcome.bind_eq_ok.mp h2
+      clear h2
+      simp only [hb0, Outcome.ok_bind]
+      splith h3
+      · exact h3
+      · dsimp only at h3 ⊢
+        splith h3
+        · exact h3
+        · obtain ⟨d, hd, h4⟩ := Outcome.bind_eq_ok.mp h3
+          clear h3
+          simp only [hd, Outcome.ok_bind]
+          obtain ⟨s, hs, h5⟩ := Outcome.bind_eq_ok.mp h4
+          clear h4
+          simp only [hs, Outcome.ok_bind]
+          splith h5
+          · exact h5
+          · splith h5
+            · exact h5
+            · simp at h5
+
+theorem attemptFromNumber_str (P : Prims) (E : Env) (c : Nat) (s : String) :
+    attemptFromNumber P E ⟨false, true⟩ (.str c s) = attemptFromNumber P E ⟨false, false⟩ (.str c s) := by
+  simp [attemptFromNumber, attemptFrom, fromByteLike]
+
+theorem toDatetime_ndl (P : Prims) (L : PrimLaws P) (E : Env) (n : Bool) (c : Nat) (df : Bool) (v : V) :
+    Sub (toDatetime P E ⟨n, true⟩ c df v) (toDatetime P E ⟨n, false⟩ c df v) := by
+  intro r h
+  unfold toDatetime at h ⊢
+  splith h
+  · exact h
+  · split at h
+    · exact h
+    · exact h
+    · obtain ⟨d1, hd1, h2⟩ := Outcome.bind_eq_ok.mp h
+      clear h
+      simp only [attemptFrom_ndl' E n v d1 hd1, Outcome.ok_bind]
+      splith h2
+      · exact h2
+      · obtain ⟨d2, hd2, h3⟩ := Outcome.bind_eq_ok.mp h2
+        clear h2
+        simp only [fromByteLike_ndl P L n d1 d2 hd2, Outcome.ok_bind]
+        split at h3
+        · dsimp only at h3 ⊢
+          cases n
+          · simp only [Bool.false_eq_true, if_false, attemptFromNumber_str] at h3 ⊢
+            exact h3
+          · exact h3
+        · exact h3
+        · exact h3
+        · exact h3
+
+theorem toDate_ndl (P : Prims) (L : PrimLaws P) (E : Env) (n : Bool) (v : V) :
+    Sub (toDate P E ⟨n, true⟩ v) (toDate P E ⟨n, false⟩ v) := by
+  intro r h
+  unfold toDate at h ⊢
+  split at h
+  · simp at h
+  · exact h
+  · obtain ⟨dt, hdt, h2⟩ := Outcome.bind_eq_ok.mp h
+    clear h
+    simp only [toDatetime_ndl P L E n 0 true v dt hdt, Outcome.ok_bind]
+    split at h2
+    · dsimp only at h2 ⊢
+      split at h2
+      · simp at h2
+      · simpa using h2
+    · exact h2
+
+theorem toTimedelta_ndl (P : Prims) (L : PrimLaws P) (E : Env) (n : Bool) (c : Nat) (v : V) :
+    Sub (toTimedelta P E ⟨n, true⟩ c v) (toTimedelta P E ⟨n, false⟩ c v) := by
+  intro r h
+  unfold toTimedelta at h ⊢
+  splith h
+  · exact h
+  · obtain ⟨d1, hd1, h2⟩ := Outcome.bind_eq_ok.mp h
+    clear h
+    simp only [attemptFrom_ndl' E n v d1 hd1, Outcome.ok_bind]
+    obtain ⟨d2, hd2, h3⟩ := Outcome.bind_eq_ok.mp h2
+    clear h2
+    simp only [fromByteLike_ndl P L n d1 d2 hd2, Outcome.ok_bind]
+    cases hf : toFloat P E ⟨n, true⟩ 0 d2 with
+    | ok x =>
+      simp only [hf] at h3
+      simp only [toFloat_ndl P L E n 0 d2 x hf]
+      exact h3
+    | perr e =>
+      simp only [hf] at h3
+      -- without the flag `to_float` may succeed where it failed: only for complex inputs, never for what is left here
+      cases d2 <;> try (simp at h3)
+      case str c' s =>
+        have : toFloat P E ⟨n, false⟩ 0 (V.str c' s) = toFloat P E ⟨n, true⟩ 0 (V.str c' s) := by
+          cases n <;> simp [toFloat, attemptFromNumber_str]
+        simp only [this, hf]
+        exact h3
+    | escape e => simp [hf] at h3
+    | diverge => simp [hf] at h3
+    | unmodelled w => simp [hf] at h3
+
+theorem toTime_ndl (P : Prims) (L : PrimLaws P) (E : Env) (n : Bool) (c : Nat) (v : V) :
+    Sub (toTime P E ⟨n, true⟩ c v) (toTime P E ⟨n, false⟩ c v) := by
+  intro r h
+  unfold toTime at h ⊢
+  splith h
+  · exact h
+  · obtain ⟨d1, hd1, h2⟩ := Outcome.bind_eq_ok.mp h
+    clear h
+    simp only [attemptFrom_ndl' E n v d1 hd1, Outcome.ok_bind]
+    dsimp only at h2 ⊢
+    simp only [if_true] at h2 ⊢
+    obtain ⟨d2, hd2, h3⟩ := Outcome.bind_eq_ok.mp h2
+    clear h2
+    have hl := fromByteLike_ndl P L n d1 d2 hd2
+    -- under no_data_loss the datetime / date shortcuts are skipped and the value then fails
+    cases d1 <;> simp only [] at h3 ⊢
+    case datetime c' d t => simp [fromByteLike] at hd2; subst hd2; simp at h3
+    case date c' d => simp [fromByteLike] at hd2; subst hd2; simp at h3
+    all_goals
+      simp only [hl, Outcome.ok_bind]
+      split at h3
+      · splith h3
+        · split at h3
+          · exact h3
+          · obtain ⟨dt, hdt, h4⟩ := Outcome.bind_eq_ok.mp h3
+            simp only [toDatetime_ndl P L E n 0 false _ dt hdt, Outcome.ok_bind]
+            exact h4
+          · exact h3
+          · exact h3
+        · exact h3
+      · exact h3
+
+theorem toUuid_ndl (P : Prims) (n : Bool) (c : Nat) (v : V) :
+    Sub (toUuid P ⟨n, true⟩ c v) (toUuid P ⟨n, false⟩ c v) := by
+  intro r h
+  unfold toUuid at h ⊢
+  splith h
+  · exact h
+  · split at h
+    · exact h
+    · exact h
+    · dsimp only at h ⊢
+      splith h
+      · exact h
+      · simp only [Bool.not_true, Bool.false_eq_true, if_false, Outcome.pure_eq, Outcome.ok_bind] at h
+        -- with no_data_loss floats and Decimals are not truncated: they are then rejected
+        cases v <;> simp at h ⊢ <;> try exact h
+
+theorem convBase_ndl (P : Prims) (L : PrimLaws P) (E : Env) (n : Bool) (b : Base) (v : V) :
+    Sub (convBase P E ⟨n, true⟩ b v) (convBase P E ⟨n, false⟩ b v) := by
+  intro r h
+  unfold convBase at h ⊢
+  splith h
+  · exact h
+  · split at h
+    · exact toInteger_ndl P L E n 0 v r h
+    · exact toFloat_ndl P L E n 0 v r h
+    · exact toStr_ndl P L E n 0 v r h
+    · exact h
+
+theorem enumBody_ndl (P : Prims) (L : PrimLaws P) (E : Env) (n : Bool) (k : Nat) (d : EnumDecl) (v : V) :
+    Sub (enumBody P E ⟨n, true⟩ k d v) (enumBody P E ⟨n, false⟩ k d v) := by
+  unfold enumBody
+  cases d.memberType with
+  | none => exact Sub.refl _
+  | some b => exact Sub.bind (convBase_ndl P L E n b v) (fun _ => Sub.refl _)
+
+theorem enumNameFallback_ndl (E : Env) (n : Bool) (k : Nat) (v : V) (o : Outcome V) (r : V) (ho : ∀ r, o ≠ .ok r) :
+    enumNameFallback E ⟨n, true⟩ k v o ≠ .ok r := by
+  unfold enumNameFallback
+  split
+  · simpa using ho r
+  · exact ho r
+
+theorem toEnum_ndl (P : Prims) (L : PrimLaws P) (E : Env) (n : Bool) (k : Nat) (v : V) :
+    Sub (toEnum P E ⟨n, true⟩ k v) (toEnum P E ⟨n, false⟩ k v) := by
+  intro r h
+  cases n
+  · unfold toEnum at h ⊢
+    split at h
+    · exact h
+    · dsimp only at h ⊢
+      simp only [Bool.false_eq_true, if_false] at h ⊢
+      split at h
+      · exact h
+      · rename_i d hd
+        -- the value lookup (after the member-type conversion) only restricts; a failure stays a failure
+        -- under no_data_loss, while the lenient run may still fall back to the member name
+        cases hb : enumBody P E ⟨false, true⟩ k d v with
+        | ok r' =>
+          simp only [hb] at h
+          simp only [enumBody_ndl P L E false k d v r' hb]
+          exact h
+        | perr e => simp only [hb] at h; exact absurd h (enumNameFallback_ndl E false k v _ r (by simp))
+        | escape e => simp only [hb] at h; exact absurd h (enumNameFallback_ndl E false k v _ r (by simp))
+        | diverge => simp [hb] at h
+        | unmodelled w => simp [hb] at h
+  · unfold toEnum at h ⊢
+    split at h
+    · exact h
+    · exact h
+
+theorem toIter_ndl (P : Prims) (L : PrimLaws P) (n : Bool) (a : Abc) (v : V) :
+    Sub (toIter P ⟨n, true⟩ a v) (toIter P ⟨n, false⟩ a v) := by
+  intro r h
+  unfold toIter at h ⊢
+  splith h
+  · exact h
+  · exact toArray_ndl P L n .list 0 v r h
+
+theorem toMapping_ndl (P : Prims) (L : PrimLaws P) (E : Env) (n : Bool) (v : V)
+    (hk : KnownDefect.jsonControlChar P E v = false) :
+    Sub (toMapping P E ⟨n, true⟩ v) (toMapping P E ⟨n, false⟩ v) := by
+  intro r h
+  unfold toMapping at h ⊢
+  splith h
+  · exact h
+  · exact toDict_ndl P L E n 0 v hk r h
 
 end Utv.C12
